@@ -133,6 +133,7 @@ type Config struct {
 	Gzip        bool          // HTTP only
 	Interleave  bool          // HTTP only: a second exporter of the same package (other endpoint, other payload) completes an export while attempt 1 of the scripted export is in flight
 	Foreign     bool          // set by the core when it asks Target.New for that second exporter
+	Headers     bool          // gRPC only: the exporter is configured with headers (they travel as outgoing metadata of the export context)
 }
 
 // ForeignHost is the endpoint host of the second exporter of an Interleave configuration; the
@@ -150,6 +151,9 @@ func configs(isHTTP, thorough bool) []Config {
 		cs = append(cs, Config{Name: "nolimit-gzip", Enabled: true, Initial: 5 * time.Second, MaxInterval: 30 * time.Second, Gzip: true})
 		cs = append(cs, Config{Name: "nolimit-gzip-interleaved", Enabled: true, Initial: 5 * time.Second, MaxInterval: 30 * time.Second, Gzip: true, Interleave: true})
 		cs = append(cs, Config{Name: "nolimit-interleaved", Enabled: true, Initial: 5 * time.Second, MaxInterval: 30 * time.Second, Interleave: true})
+	}
+	if !isHTTP {
+		cs = append(cs, Config{Name: "nolimit-headers", Enabled: true, Initial: 5 * time.Second, MaxInterval: 30 * time.Second, Headers: true})
 	}
 	if thorough {
 		cs = append(cs, Config{Name: "zero-backoff", Enabled: true, Initial: time.Nanosecond, MaxInterval: time.Nanosecond, MaxElapsed: 3600 * time.Second})
@@ -337,6 +341,7 @@ type runState struct {
 	exp  Exporter
 	real bool // real wait function in place
 
+	noDeadline  int      // gRPC: first attempt whose context carried no deadline (0 = none)
 	foreign     Exporter // Interleave configurations: exports once while attempt 1 is in flight
 	foreignErr  error
 	foreignDone bool
@@ -458,6 +463,16 @@ func (rs *runState) trigger(ctx context.Context) {
 				rs.mode, rs.modeNote = AsyncSerial, "Shutdown did not return while the export was in flight"
 			}
 		}
+	}
+}
+
+// NoteGRPCContext is called by the gRPC service-client fakes with the context of every call: the
+// export timeout (10 s unless configured otherwise) has to bound each of them, whatever else the
+// exporter attaches to the context.
+func NoteGRPCContext(ctx context.Context) {
+	rs := cur
+	if _, ok := ctx.Deadline(); !ok && rs.noDeadline == 0 && ctx.Err() == nil {
+		rs.noDeadline = rs.attempts + 1
 	}
 }
 
@@ -946,7 +961,7 @@ func (rs *runState) outcome(tg *Target, ex expect) string {
 func (d *driver) describe(sc script, cfg Config, ex expect, rs *runState) map[string]any {
 	m := map[string]any{
 		"exporter": d.tg.Name,
-		"config":   fmt.Sprintf("%s {Enabled:%v InitialInterval:%v MaxInterval:%v MaxElapsedTime:%v gzip:%v}", cfg.Name, cfg.Enabled, cfg.Initial, cfg.MaxInterval, cfg.MaxElapsed, cfg.Gzip) + map[bool]string{false: "", true: "; a second exporter of the package completes an export while attempt 1 is in flight"}[cfg.Interleave],
+		"config":   fmt.Sprintf("%s {Enabled:%v InitialInterval:%v MaxInterval:%v MaxElapsedTime:%v gzip:%v}", cfg.Name, cfg.Enabled, cfg.Initial, cfg.MaxInterval, cfg.MaxElapsed, cfg.Gzip) + map[bool]string{false: "", true: "; WithHeaders(c14=v)"}[cfg.Headers] + map[bool]string{false: "", true: "; a second exporter of the package completes an export while attempt 1 is in flight"}[cfg.Interleave],
 		"answers":  strings.Join(sc.wordNames(), ", ") + " then 200/OK",
 		"event":    sc.ev.String(),
 		"observed": rs.render(),
@@ -994,6 +1009,12 @@ func (d *driver) judge(sc script, cfg Config, ex expect, rs *runState) (key, msg
 			k += "|another exporter of the package exported in between"
 		}
 		return k, rs.payloadBad
+	case rs.noDeadline != 0:
+		cls := "no headers configured"
+		if cfg.Headers {
+			cls = "headers configured"
+		}
+		return "attempt-without-deadline|" + cls, fmt.Sprintf("the context of attempt %d carries no deadline: the export timeout does not bound the call (a collector that keeps answering retryably, or never answers, holds Export for as long as the caller's context lives)", rs.noDeadline)
 	case rs.foreignDone && rs.foreignErr != nil:
 		return "interleaved-export-failed", fmt.Sprintf("the second exporter's export (answered 200 at once) returned %v", rs.foreignErr)
 	case rs.afterShut != 0:
